@@ -24,3 +24,21 @@ Definition api_spec_var_chao (f : list Q) := val_wire (ov (spec_var_chao f)).
 Definition api_jaccard (A B : list (option N)) : option Q := option_map Qred (jaccard A B).
 Definition api_overlap (A B : list (option N)) : nat := overlap A B.
 Definition api_overlap_coefficient (A B : list (option N)) := val_wire (overlap_coefficient A B).
+
+(* ---- C01 / C03 / C07 / C14: symmetric-delete search ---- *)
+From PV Require Import model.Symdel.
+Definition redq (l : list (nat * nat * Q)) : list (nat * nat * Q) := map (fun t => (fst t, Qred (snd t))) l.
+Definition api_comb_gen (k : nat) (s : str) : list str := comb_gen k s.
+Definition api_symdel_self_lev (k : nat) (seqs : list str) := symdel_self Nat.eq_dec (keep_lev k) k seqs.
+Definition api_symdel_self_ham (k : nat) (seqs : list str) := symdel_self Nat.eq_dec (keep_ham k) k seqs.
+Definition api_symdel_self_custom (which k : nat) (maxc : option Q) (seqs : list str) := redq (symdel_self Q_eq_dec (keep_custom (custom_dist which) k maxc) k seqs).
+Definition api_symdel_lookup_lev (k : nat) (refs queries : list str) := symdel_lookup (keep_lev k) k refs queries.
+Definition api_symdel_lookup_ham (k : nat) (refs queries : list str) := symdel_lookup (keep_ham k) k refs queries.
+Definition api_symdel_lookup_custom (which k : nat) (maxc : option Q) (refs queries : list str) := redq (symdel_lookup (keep_custom (custom_dist which) k maxc) k refs queries).
+Definition api_brute_self_lev (k : nat) (seqs : list str) := all_pairs_self (keep_lev k) seqs.
+Definition api_brute_self_ham (k : nat) (seqs : list str) := all_pairs_self (keep_ham k) seqs.
+Definition api_brute_self_custom (which k : nat) (maxc : option Q) (seqs : list str) := redq (all_pairs_self (keep_custom (custom_dist which) k maxc) seqs).
+Definition api_brute_cross_lev (k : nat) (refs queries : list str) := all_pairs_cross (keep_lev k) refs queries.
+Definition api_brute_cross_ham (k : nat) (refs queries : list str) := all_pairs_cross (keep_ham k) refs queries.
+Definition api_brute_cross_custom (which k : nat) (maxc : option Q) (refs queries : list str) := redq (all_pairs_cross (keep_custom (custom_dist which) k maxc) refs queries).
+Definition api_custom_dist (which : nat) (a b : str) : Q := Qred (custom_dist which a b).
